@@ -32,7 +32,7 @@ BUDGET = {"quick": 45, "thorough": 900}
 RULE = (
     "One run = one call with expected_groups (superset / subset / disjoint / exact of the labels present, sorted or "
     "not), fill_value in {NaN, 0, -7, 123456, False} (restricted to values representable in the result dtype), "
-    "min_count in {None, 0, 1, 2, > group size}, any reduction, engine in {auto, numpy, flox, numbagg}, evaluated "
+    "min_count in {None, 0, 1, 2, > group size}, optionally a floating dtype=, any reduction, engine in {auto, numpy, flox, numbagg}, evaluated "
     "eagerly (zero-task configuration) and chunked under a random strategy/reindex/chunking on the simulated cluster "
     "with faults. Slot-wise reference model: a requested label that never occurs -> the user's fill verbatim; explicit "
     "min_count k>0 and fewer than k valid members -> fill; >= max(k,1) valid members -> NumPy's value; occurs with no "
@@ -42,7 +42,7 @@ RULE = (
     "min_count, engine, resolved method/reindex or 'eager', dtype kind) cells."
 )
 ASSUMPTIONS = ["sampled, not exhaustive", "ambiguous slots are skipped and counted, never guessed"]
-PROBES = ["absent_label_slot", "below_min_count_slot", "unrequested_label_dropped", "falsy_fill", "unsorted_expected",
+PROBES = ["dtype_kw_with_fill", "absent_label_slot", "below_min_count_slot", "unrequested_label_dropped", "falsy_fill", "unsorted_expected",
           "disjoint_expected", "engine_numbagg", "resolved_cohorts", "resolved_blockwise"]
 
 FILLS = [math.nan, math.nan, 0, 0.0, -7, 123456, False]
@@ -68,6 +68,14 @@ def gen(tape: Tape, tier: str) -> dict:
         sort_choices=(True, True, True, False),
         unsorted_expected_p=0.3,
     )
+    # a requested floating dtype= together with the fill (each plan casts at a different stage)
+    from ..cases import dec_value, enc_value
+    from ..redcase import BOOL
+
+    kw = dec_value(case["kwargs"])
+    if kw["func"] not in ARG + BOOL + ["count"] and kw.get("engine") != "numbagg" and tape.chance("gen.dtypekw", 0.25):
+        kw["dtype"] = tape.choice("gen.dtypekw.v", ["f4", "f8"])
+        case["kwargs"] = enc_value(kw)
     return case
 
 
@@ -203,6 +211,7 @@ def run(case, tape: Tape, ctx):
     ctx.cell(func, repr(kw.get("fill_value")), kw.get("min_count"), kw.get("engine"),
              plan.get("method"), plan.get("reindex"), arr.dtype.kind, int(bool(present - exp)))
     ctx.probe("unrequested_label_dropped", bool(present - exp))
+    ctx.probe("dtype_kw_with_fill", "dtype" in kw)
     ctx.probe("falsy_fill", kw.get("fill_value") in (0, False) and not isinstance(kw.get("fill_value"), float) or kw.get("fill_value") == 0.0)
     ctx.probe("unsorted_expected", list(np.asarray(kw["expected_groups"]).tolist()) != sorted(np.asarray(kw["expected_groups"]).tolist()))
     ctx.probe("disjoint_expected", not (present & exp))
